@@ -9,6 +9,17 @@ OBSERVERS = ["getPayload", "iterate", "coiterate", "compare", "queries", "print"
 
 
 # read-only operations that accept an operand with tuple coordinates as it is (the others take integer coordinates / ranges from the caller)
+def content_leafless(t, depth, d):
+    """does flattening ranks d, d+1 of tree t leave an empty fiber somewhere the unflatten would start from?  (every fiber at depth d has only empty sub-fibers,
+    or none at all)"""
+    def at(p, lv):
+        if lv == 0:
+            return [p]
+        return [x for _, q in p["e"] for x in at(q, lv - 1)]
+    fs = at(t, d)
+    return (not fs) or any(all(not q["e"] for _, q in f["e"]) for f in fs)
+
+
 FLAT_OBSERVERS = ["compare", "print", "dump", "renderTree", "renderUncompressed", "renderTensor"]
 
 
@@ -36,8 +47,8 @@ def run(ctx):
             d = rng.randint(0, depth - 2) if need2 else rng.randint(0, depth - 1)
             if op == "fiberUnflatten":
                 d = 0           # Fiber.unflattenRanks works on the top rank only
-            if op in ("unflatten", "fiberUnflatten") and not t["e"]:
-                continue        # an empty fiber has no tuple coordinates to unflatten (precondition of the call)
+            if op in ("unflatten", "fiberUnflatten") and content_leafless(t, depth, d):
+                continue        # nothing to flatten below rank d: the flattened fiber is empty and has no tuple coordinates to unflatten (precondition of the call)
             if classify_tree(t) == "ghost" and (need2 or op.startswith("split") or op == "fiberSplitUniform"):
                 continue          # *Below transforms on 'ghost' sub-fibers: C09 / C08 known findings, not an aliasing question
             cases.append({"kind": "value", "op": op, "tree": t, "tree2": t2, "depth": depth, "d": d, "step": rng.randint(1, 3), "style": rng.choice(["tuple", "pair"]),
